@@ -385,8 +385,9 @@ Fail(q, st) == [q EXCEPT !.st = st]
 Fire(q, d) == [q EXCEPT !.fired = @ \cup {d}]
 Running(q) == q.st = "run"
 SetU(q, s, u) == [q EXCEPT !.obj[s].u = u]
-KeepStale == Dev("AnonNoMem")          \* stale slots are only ever read through that defect
-Pop(q) == [q EXCEPT !.sub = @ - 1, !.obj = IF KeepStale THEN @ ELSE SubSeq(@, 1, q.sub - 1)]
+\* slots above `sub` keep their old contents in the C array, but are re-initialised by subobj() before any read
+\* (since fix 4544836 findmember records u.mem on every level it descends through), so the model drops them
+Pop(q) == [q EXCEPT !.sub = @ - 1, !.obj = SubSeq(@, 1, q.sub - 1)]
 
 \* subobj(p, t, off)
 SubObj(q, t, off) ==
@@ -408,17 +409,16 @@ FindMember(q, nm, k) ==
           IF m.name # ""
           THEN IF m.name = nm THEN [q |-> SubObj(SetU(q, q.sub, UMem(k)), m.ty, m.off), found |-> TRUE]
                ELSE FindMember(q, nm, k + 1)
-          ELSE \* anonymous member: descend.  The code does not record u.mem for this level (deviation AnonNoMem)
-               LET q0 == IF Dev("AnonNoMem") THEN q ELSE SetU(q, q.sub, UMem(k))
-                   q1 == SubObj(q0, m.ty, m.off)
+          ELSE \* anonymous member: record it, descend  (the missing `p->sub->u.mem = m` was deviation AnonNoMem,
+               \* repaired in /repo by 4544836)
+               LET q1 == SubObj(SetU(q, q.sub, UMem(k)), m.ty, m.off)
                    r  == FindMember(q1, nm, 1)
-               IN IF r.found THEN [q |-> IF Dev("AnonNoMem") THEN Fire(r.q, "AnonNoMem") ELSE r.q, found |-> TRUE]
-                  ELSE FindMember(Pop(q1), nm, k + 1)
+               IN IF r.found THEN r ELSE FindMember(Pop(q1), nm, k + 1)
 
 \* one designator of designator(); first = first designator of this initializer
 DesignateOp(q0, tk, first) ==
   LET q == IF first THEN [q0 EXCEPT !.last = 0, !.sub = q0.cur,
-                                    !.obj = IF KeepStale THEN @ ELSE SubSeq(@, 1, q0.cur)] ELSE q0
+                                    !.obj = SubSeq(@, 1, q0.cur)] ELSE q0
       t == q.obj[q.sub].ty
   IN IF tk.k = "i"
      THEN IF Kind(t) # "arr" THEN Fail(q, "err")
@@ -656,7 +656,7 @@ CloseBrace ==
   /\ LET RECURSIVE Outer(_)
          Outer(c) == IF c = 0 \/ p.obj[c].iscur THEN c ELSE Outer(c - 1)
          q1 == [p EXCEPT !.sub = p.cur, !.cur = Outer(p.cur - 1),
-                         !.obj = IF KeepStale THEN @ ELSE SubSeq(@, 1, p.cur)]
+                         !.obj = SubSeq(@, 1, p.cur)]
          q2 == IF IncI(q1, q1.obj[q1.sub].ty) THEN [q1 EXCEPT !.inc = FALSE] ELSE q1
      IN Goto(AfterInit(q2), "after", "CloseBrace")
 
@@ -738,7 +738,7 @@ ZeroLoop(mem, align, offset, end, a) ==
   ELSE LET hit == ((align - (offset % align)) \div a) % 2 = 1            \* (align - (offset & align - 1)) & a
            m1  == IF hit THEN [k \in DOMAIN mem |-> IF k > offset /\ k <= offset + a THEN 0 ELSE mem[k]] ELSE mem
        IN ZeroLoop(m1, align, IF hit THEN offset + a ELSE offset, end, IF a < align THEN 2 * a ELSE a)
-ZeroOp(mem, align, offset, end) == ZeroLoop(mem, align, offset, end, 1)
+ZeroOp(mem, align, offset, end) == ZeroLoop(mem, IF align > 8 THEN 8 ELSE align, offset, end, 1)   \* the widest store is 8 bytes
 
 StoreBytes(mem, off, bs) == [k \in DOMAIN mem |-> IF k > off /\ k <= off + Len(bs) THEN bs[k - off] ELSE mem[k]]
 \* bit-field store: load the unit, clear the field, or in the shifted value, store the unit
@@ -795,7 +795,7 @@ ListSortedDisjoint ==
      LET a == p.list[i]
          b == p.list[j]
      IN \/ EBit(a) <= SBit(b)
-        \/ "UnionCover" \in p.fired \/ "AnonNoMem" \in p.fired
+        \/ "UnionCover" \in p.fired
         \/ (a.x.k \in {"str", "agg"} /\ SBit(a) <= SBit(b) /\ EBit(b) <= EBit(a) /\ b.x.k \notin {"str", "agg"})
 StackDepth == p.sub <= 32 /\ p.cur <= p.sub /\ p.last <= Len(p.list)
 TypeOK == /\ pc \in {"head", "after", "close", "des", "adv", "foc", "item", "expr", "done", "err", "undef"}
